@@ -31,11 +31,22 @@ EST_NAMES = ['median', 'mean', 'biweight', 'mode']
 COLS = ['chromosome', 'start', 'end', 'gene', 'log2', 'depth', 'weight']
 
 UNPROVED = [
-    'noisy sex inference (bin noise sd 0.01..0.3, 40..400 chrX bins): statistical; compare_sex_chromosomes / guess_xx / '
-    'do_sex are run on generated samples of the quantifier and every wrong call is reported as a concrete failing input; '
-    'the theorems C15_sex_idealised / C15_sex_idealised_build cover the noise-free sample for every reference sex x PAR build, '
-    'C15_sex_arith the decision arithmetic for every median-test outcome within its contract; a third of the noisy samples '
-    'carry PAR-X / PAR-Y bins and are judged under a PAR build',
+    'noisy sex inference (Gaussian bin noise sd 0.01..0.3, 40..400 chrX bins): PROVED for bounded noise -- '
+    'C15_sex_bounded_noise: every bin within eps < 1/4 of its level (C15_sex_bounded_noise_corollary: 0.24), and '
+    'C15_sex_centred_noise: only the three (weighted) medians within eps < 1/4 -- for every reference sex x PAR build x Y x '
+    'weights, outright on the route without median-test statistics and, on the route with them, under the contract that '
+    'the statistic is not larger / smaller for the hypothesis whose shifted chromosome median is closer to the '
+    "autosomes' (1/4 is sharp: C15_sex_quarter_is_sharp; the contract cannot be dropped: C15_sex_contract_needed). "
+    'STILL STATISTICAL, sampled only: (i) the Gaussian tails -- a sample whose median of chrX / chrY / autosomal bins '
+    'strays 1/4 or more from its level (at sd 0.3 and 40 bins a 4-sigma event); (ii) that scipy.stats.median_test meets '
+    'the contract on the sample: evaluated on every generated sample, counts in coverage.sex_noise (per stream: '
+    'contract_met / contract_unmet / under_theorem / wrong_calls). compare_sex_chromosomes / guess_xx / do_sex are run '
+    'on generated samples of the quantifier and every wrong call is reported as a concrete failing input; a third of '
+    'the samples carry PAR-X / PAR-Y bins and are judged under a PAR build',
+    'weighted medians inside compare_sex_chromosomes: the model arranges equal values stably, numpy.argsort (default kind) '
+    'need not; a table where that can change the weighted median (the cumulative weight reaches the midpoint at the end of '
+    'a run of equal values that holds a zero-weight bin) is not compared with the model when the two differ (class '
+    'sex:weighted-median-tie-order; C19 treats the order as an oracle)',
     'do_sex: C15_do_sex_row / _rows / _columns / _sign state the table before number formatting; the "%.3g" rendering of the two '
     'ratios is compared as text with the code (same_3g), not modelled',
     "mode: the Gaussian-KDE arg-max index is an oracle (scipy.stats.gaussian_kde); C15_zero_mode holds for every index "
@@ -694,18 +705,83 @@ def gstat_of_table(t):
     return float(stat)
 
 
-def sex_tables(rows, hap, build):
-    """the contingency tables compare_sex_chromosomes will hand to the G test, with scipy's statistic"""
-    if not rows:
-        return []
+def sex_parts(rows, build):
+    """the rows compare_sex_chromosomes compares: (autosomal incl. PAR-X with a build, chrX outside PAR-X, chrY outside PAR-Y)"""
     xl, yl = py_labels(rows)
     def on(label, keys, r):
         return r[0] == label and not (build is not None and py_in_par(build, keys, r[1], r[2]))
     any_auto = any(py_is_auto(r[0]) for r in rows)
-    auto = [r[4] for r in rows if (not any_auto) or py_is_auto(r[0]) or
+    auto = [r for r in rows if (not any_auto) or py_is_auto(r[0]) or
             (build is not None and r[0] == xl and py_in_par(build, ('PAR1X', 'PAR2X'), r[1], r[2]))]
-    chrx = [r[4] for r in rows if on(xl, ('PAR1X', 'PAR2X'), r)]
-    chry = [r[4] for r in rows if on(yl, ('PAR1Y', 'PAR2Y'), r)]
+    chrx = [r for r in rows if on(xl, ('PAR1X', 'PAR2X'), r)]
+    chry = [r for r in rows if on(yl, ('PAR1Y', 'PAR2Y'), r)]
+    return auto, chrx, chry
+
+
+def wmedian_tie_sensitive(rows, build):
+    """can descriptives.weighted_median of one of the three sets of bins depend on how numpy's unstable argsort arranges
+    equal values?  Exactly when the cumulative weight reaches the midpoint at the END of a run of equal values that holds
+    a zero-weight bin next to a weighted one: with the zero-weight bin last the search stops inside the run (-> that
+    value), otherwise at its end (-> mean of that value and the next)."""
+    for part in sex_parts(rows, build):
+        tot = sum(F(r[6]) for r in part)
+        if tot <= 0:
+            continue
+        groups = {}
+        for r in part:
+            groups.setdefault(F(r[4]), []).append(F(r[6]))
+        cum = F(0)
+        for v in sorted(groups):
+            ws = groups[v]
+            cum += sum(ws)
+            if len(ws) > 1 and cum * 2 == tot and min(ws) == 0 and max(ws) > 0:
+                return True
+    return False
+
+
+def scipy_contract(rows, hw, hap, build):
+    """The contract of C15_sex_bounded_noise evaluated on scipy's own median_test, per chromosome, the way
+    compare_to_auto calls it: {'x': {...}, 'y': {...}|None}; route 1 = both tests gave a statistic; ok = contract met
+    (vacuously when route 0); margin = |f_diff - m_diff| (a tie there makes the contract's premise float-ambiguous)."""
+    from scipy.stats import median_test
+    from cnvlib import descriptives
+    auto, chrx, chry = sex_parts(rows, build)
+    auto_l = np.array([float(r[4]) for r in auto])
+    auto_w = np.array([float(r[6]) for r in auto]) if hw else None
+
+    def to_auto(vals, w):
+        try:
+            stat, _p, _m, cont = median_test(auto_l, vals, ties='ignore', lambda_='log-likelihood')
+        except ValueError:
+            stat = None
+        else:
+            if stat == 0 and 0 in cont:
+                stat = None
+        if hw:
+            d = abs(descriptives.weighted_median(auto_l, auto_w) - descriptives.weighted_median(vals, w))
+        else:
+            d = abs(np.median(auto_l) - np.median(vals))
+        return (None if stat is None else float(stat)), float(d)
+
+    def chrom(sub, fs, ms):
+        vals = np.array([float(r[4]) for r in sub])
+        w = np.array([float(r[6]) for r in sub]) if hw else None
+        f, fd = to_auto(vals + fs, w)
+        m, md = to_auto(vals + ms, w)
+        if f is None or m is None:
+            return {'route': 0, 'ok': True, 'f': f, 'm': m, 'f_diff': fd, 'm_diff': md, 'margin': abs(fd - md)}
+        ok = f >= 0 and m >= 0 and (not fd < md or f <= m) and (not md < fd or (m < f and f > 0.01))
+        return {'route': 1, 'ok': bool(ok), 'f': f, 'm': m, 'f_diff': fd, 'm_diff': md, 'margin': abs(fd - md)}
+
+    fx, mx = (-1, 0) if hap else (0, 1)
+    return {'x': chrom(chrx, fx, mx), 'y': chrom(chry, 3, 0) if chry else None}
+
+
+def sex_tables(rows, hap, build):
+    """the contingency tables compare_sex_chromosomes will hand to the G test, with scipy's statistic"""
+    if not rows:
+        return []
+    auto, chrx, chry = [[r[4] for r in part] for part in sex_parts(rows, build)]
     out = []
     shifts = []
     if chrx:
@@ -759,11 +835,18 @@ class SexBatch:
         self.ck = ck
         self.items = []
 
-    def add(self, rows, hd, hw, hap, build, cls, truth=None, info=None):
-        """truth: 'm' / 'f' for a generated sample of the quantifier (direct oracle), None for correspondence-only"""
+    def add(self, rows, hd, hw, hap, build, cls, truth=None, info=None, noise=None):
+        """truth: 'm' / 'f' for a generated sample of the quantifier (direct oracle), None for correspondence-only.
+        noise: {'eps': Fraction, 'a': Fraction, 'stream': name, 'bounded': bool[, 'female': bool]} -- evaluate the
+        hypotheses of C15_sex_bounded_noise / C15_sex_centred_noise on the sample (model: c15_noise_check; scipy:
+        scipy_contract)"""
         ck = self.ck
         case = {'kind': 'sex', 'rows': case_rows(rows), 'has_depth': hd, 'has_weight': hw, 'hap': hap, 'build': build,
                 'truth': truth, 'info': info}
+        if noise is not None:
+            case['noise'] = {'eps': str(F(noise['eps'])), 'a': str(F(noise['a'])), 'stream': noise['stream'],
+                             'bounded': bool(noise.get('bounded')), 'female': bool(noise.get('female', truth == 'f')),
+                             'expect': noise.get('expect')}
         code = run_sex(rows, hd, hw, hap, build)
         xl, _ = py_labels(rows)
         ck.count(case, nontrivial=any(r[0] == xl for r in rows), cls=cls)
@@ -777,7 +860,9 @@ class SexBatch:
                 ck.violation('a %s sample (%s) is reported as is_xy=%r guess_xx=%r sex=%r' % (
                     'male' if want_xy else 'female', info, code['is_xy'], code['guess_xx'], code['label']), case,
                     code=code, expected={'is_xy': want_xy, 'guess_xx': not want_xy},
-                    clause='C15_sex_idealised' if (info or {}).get('sd') == 0 else 'C15_sex (noisy: monitored)')
+                    clause='C15_sex_idealised' if (info or {}).get('sd') == 0 else
+                    ('C15_sex_bounded_noise (bounded noise: proved under the contract; see coverage.sex_noise)'
+                     if (noise or {}).get('bounded') else 'C15_sex (noisy: monitored)'))
         self.items.append((case, rows, hd, hw, hap, build, code))
 
     def flush(self):
@@ -809,20 +894,117 @@ class SexBatch:
                       vlib.close(code['score'], score) and vlib.close(code['x_lr'], x_lr) and vlib.close(code['y_lr'], y_lr) and
                       vlib.close(code['x_ratio'], x_ratio) and vlib.close(code['y_ratio'], y_ratio) and
                       same_3g(code['x_str'], x_ratio) and same_3g(code['y_str'], y_ratio))
+            if not ok and hw and m[0] is not None and wmedian_tie_sensitive(rows, build):
+                # descriptives.weighted_median sorts with numpy's default (unstable) argsort: among EQUAL values with
+                # DIFFERENT weights the arrangement, and with it the value returned when the cumulative weight hits the
+                # midpoint inside the tie, is numpy's choice (C19 models this with the order as an oracle); the model
+                # here arranges stably.  Such a table is not compared (seen: autosomal values 0, 0 with weights 1, 0).
+                ck.cls('sex:weighted-median-tie-order (not compared)')
+                ck.float_ambiguous += 1
+                continue
             if not ok:
                 ck.tie_break('compare_sex_chromosomes / guess_xx / do_sex: code and model differ', case, code=code,
                              model=vlib.jsonable(m))
+        self.flush_noise(items, reqs, res)
+
+    def flush_noise(self, items, reqs, sexres):
+        """the hypotheses of the bounded-noise theorems on every sample that carries a `noise` record"""
+        ck = self.ck
+        sel = [(it, rq, sm) for it, rq, sm in zip(items, reqs, sexres)
+               if it[0].get('noise') and not isinstance(it[6], Err) and not isinstance(sm, Err)]
+        if not sel:
+            return
+        nreqs = []
+        for (case, rows, hd, hw, hap, build, code), rq, sm in sel:
+            nz = case['noise']
+            nreqs.append([F(nz['eps']), F(nz['a']), bool(nz['female']), hap, build, rq[2], rq[3]])
+        res = vlib.model_batch_parallel('c15_noise_check', nreqs)
+        st = ck.extra.setdefault('sex_noise', {})
+        for ((case, rows, hd, hw, hap, build, code), rq, sm), m in zip(sel, res):
+            nz = case['noise']
+            if isinstance(m, Err):
+                raise RuntimeError('c15_noise_check failed on a generated sample: %r' % (m,))
+            bounded_b, centred_b, cx, cy, rx, ry, c_auto, c_x, c_y = m
+            is_xy = sm[0]            # the model's decision on the same input (c15_sex)
+            sc = scipy_contract(rows, hw, hap, build)
+            rec = st.setdefault(nz['stream'], {'samples': 0, 'bins_within_eps': 0, 'centres_within_eps': 0,
+                                               'route_statistics_x': 0, 'route_statistics_y': 0, 'y_present': 0,
+                                               'contract_met': 0, 'contract_unmet': 0, 'contract_unmet_x': 0,
+                                               'contract_unmet_y': 0, 'under_theorem': 0, 'wrong_calls': 0,
+                                               'wrong_calls_under_theorem': 0, 'unmet_examples': []})
+            rec['samples'] += 1
+            rec['bins_within_eps'] += bool(bounded_b)
+            rec['centres_within_eps'] += bool(centred_b)
+            rec['route_statistics_x'] += int(rx)
+            rec['route_statistics_y'] += int(ry)
+            rec['y_present'] += sc['y'] is not None
+            # scipy's median_test against the contract, and the same through the model (fed scipy's G per table)
+            py_x, py_y = sc['x']['ok'], (sc['y']['ok'] if sc['y'] else True)
+            for name, py_ok, py_route, mod_ok, mod_route, part in (
+                    ('chrX', py_x, sc['x']['route'], cx, rx, sc['x']),
+                    ('chrY', py_y, sc['y']['route'] if sc['y'] else 0, cy, ry, sc['y'])):
+                if part is not None and part['margin'] < 1e-9:
+                    ck.float_ambiguous += 1
+                    continue
+                if py_ok is not bool(mod_ok) or int(py_route) != int(mod_route):
+                    ck.tie_break('the contract of C15_sex_bounded_noise on %s: scipy.stats.median_test and the model '
+                                 '(fed the G statistic per table) disagree' % name, case,
+                                 code={'contract_met': py_ok, 'route': py_route, 'detail': part},
+                                 model={'contract_met': bool(mod_ok), 'route': int(mod_route)})
+            met = bool(cx) and bool(cy)
+            rec['contract_met' if met else 'contract_unmet'] += 1
+            rec['contract_unmet_x'] += not cx
+            rec['contract_unmet_y'] += not cy
+            ck.cls('sex-noise:%s:%s' % (nz['stream'], 'contract-met' if met else 'contract-UNMET'))
+            if not met and len(rec['unmet_examples']) < 5:
+                rec['unmet_examples'].append({'info': case.get('info'), 'chrX': sc['x'], 'chrY': sc['y'],
+                                              'code_is_xy': code.get('is_xy'), 'truth': case.get('truth')})
+            # (the model is regenerated from the source's constants -- PAR table, shifts, weighted-median constants --, so
+            #  after a change of the code these can fail: reported as a broken tie, never as a harness error)
+            if nz['bounded'] and not bounded_b:
+                ck.tie_break('a sample generated with every bin within eps of its level is outside bounded_noise_b of the '
+                             '(regenerated) model', case, code={'info': case.get('info')}, model={'bounded_noise_b': False})
+            if bounded_b and not centred_b:
+                ck.tie_break('bins within eps but the centres of the (regenerated) model are not: C15_bounded_is_centred no '
+                             'longer holds of it', case, code={'info': case.get('info')},
+                             model={'centres': vlib.jsonable([c_auto, c_x, c_y])})
+            want_xy = not nz['female']
+            under = bool(centred_b) and met and F(nz['eps']) < F(1, 4)
+            rec['under_theorem'] += under
+            wrong = code.get('is_xy') is not want_xy
+            rec['wrong_calls'] += wrong
+            if nz.get('expect') is not None:
+                # a fixed witness of Props/C15.v: what the theorem about it says must be what the code does
+                exp = nz['expect']
+                got = {'is_xy': code.get('is_xy'), 'contract_met': met, 'bins_within_eps': bool(bounded_b)}
+                if any(got[k] != v for k, v in exp.items()):
+                    ck.tie_break('witness %s of Props/C15.v: the code / scipy do not behave as the theorem about the '
+                                 'witness says' % nz['stream'], case, code=got, model=exp)
+            if under:
+                ck.cls('sex-noise:%s:under-theorem' % nz['stream'])
+                if is_xy is not want_xy:
+                    ck.tie_break('the (regenerated) model calls a sample that passes noise_check by the wrong sex: '
+                                 'C15_sex_noise_check no longer holds of it', case, code={'is_xy': code.get('is_xy')},
+                                 model={'is_xy': is_xy, 'want': want_xy})
+                if wrong:
+                    rec['wrong_calls_under_theorem'] += 1
+                    ck.violation('a %s sample that meets every hypothesis of C15_sex_centred_noise (centres within %s of '
+                                 'their levels, scipy within the contract) is called is_xy=%r' % (
+                                     'female' if nz['female'] else 'male', nz['eps'], code.get('is_xy')), case,
+                                 code=code, expected={'is_xy': want_xy}, clause='C15_sex_centred_noise')
 
 
 X_LEVEL = {('m', True): F(0), ('f', True): F(1), ('m', False): F(-1), ('f', False): F(0)}
 
 
-def gen_sexed_sample(rng, sex, hap, with_y, with_w, sd, nx, style, tier):
-    """autosomes at 0, chrX / chrY at the levels expected for `sex` against the reference, Gaussian noise of sd `sd`
-    rounded to the 1/1024 grid"""
+def gen_sexed_sample(rng, sex, hap, with_y, with_w, sd, nx, style, tier, noise=None, level=F(0), ylevels=None):
+    """autosomes at `level` (0), chrX / chrY at the levels expected for `sex` against the reference, Gaussian noise of sd
+    `sd` rounded to the 1/1024 grid -- or the noise drawn by `noise()` (bounded-noise stream)"""
     pre = 'chr' if style == 'chr' else ''
-    def noisy(level):
-        return level + (F(round(rng.gauss(0.0, sd) * GRID), GRID) if sd > 0 else 0)
+    def noisy(lv):
+        if noise is not None:
+            return lv + level + noise()
+        return lv + (F(round(rng.gauss(0.0, sd) * GRID), GRID) if sd > 0 else 0)
     rows = []
     per = rng.randint(3, 10 if tier == 'quick' else 25)
     autos = list(range(1, 23)) if rng.random() < 0.7 else sorted(rng.sample(range(1, 23), rng.randint(4, 21)))
@@ -839,7 +1021,7 @@ def gen_sexed_sample(rng, sex, hap, with_y, with_w, sd, nx, style, tier):
         a += 20000
     if with_y:
         ny = rng.randint(5, 60)
-        ylev = F(0) if sex == 'm' else rng.choice([F(-20), F(-20), F(-10), F(-6), F(-4)])
+        ylev = F(0) if sex == 'm' else rng.choice(ylevels or [F(-20), F(-20), F(-10), F(-6), F(-4)])
         a = 3000000
         for _ in range(ny):
             rows.append((pre + 'Y', a, a + 500, 'g', noisy(ylev), (F(10) if sex == 'm' else F(0)), wt()))
@@ -847,13 +1029,15 @@ def gen_sexed_sample(rng, sex, hap, with_y, with_w, sd, nx, style, tier):
     return rows
 
 
-def with_par_bins(rng, rows, build, style, sd, n=None):
+def with_par_bins(rng, rows, build, style, sd, n=None, noise=None, level=F(0)):
     """the same sample as seen with a PAR build: bins inside PAR1X / PAR2X sit at the autosomal level for both sexes
     (two copies), bins inside PAR1Y / PAR2Y -- when the sample has chrY bins -- carry no reads (everything maps to X)"""
     pre = 'chr' if style == 'chr' else ''
     tab = par_tables()[build.lower()]
-    def noisy(level):
-        return level + (F(round(rng.gauss(0.0, sd) * GRID), GRID) if sd > 0 else 0)
+    def noisy(lv):
+        if noise is not None:
+            return lv + level + noise()
+        return lv + (F(round(rng.gauss(0.0, sd) * GRID), GRID) if sd > 0 else 0)
     out = list(rows)
     n = n if n is not None else rng.randint(1, 6)
     for key in ('PAR1X', 'PAR2X'):
@@ -958,8 +1142,11 @@ def check_sex(ck):
             nbuild = rng.choice(['grch37', 'grch38', 'GRCh38'])
             rows = with_par_bins(rng, rows, nbuild, style, sd)
             info['build'] = nbuild
+        # Gaussian monitoring, unchanged; additionally the sample is classified: do its three centres lie within
+        # 255/1024 < 1/4 of their levels and does scipy meet the contract, i.e. is it under C15_sex_centred_noise
         batch.add(rows, True, with_w, hap, nbuild, 'sex:noisy:%s:%s%s%s%s' % (sex, 'malref' if hap else 'femref',
-                  ':Y' if with_y else '', ':w' if with_w else '', ':par' if nbuild else ''), truth=sex, info=info)
+                  ':Y' if with_y else '', ':w' if with_w else '', ':par' if nbuild else ''), truth=sex, info=info,
+                  noise={'eps': F(255, 1024), 'a': F(0), 'stream': 'gaussian', 'bounded': False})
         if i % 5 == 0:
             code = batch.items[-1][-1] if batch.items else None
             if isinstance(code, dict) and code.get('guess_xx') is not None:
@@ -967,6 +1154,68 @@ def check_sex(ck):
                 add_shift(rows, True, with_w, hap, None, nbuild, case, guess=code['guess_xx'])
         if len(batch.items) >= 200:
             batch.flush()
+    # bounded noise (C15_sex_bounded_noise): every bin within eps of its level, uniform on the 1/1024 grid in
+    # [-eps, eps] (or, one in six, pushed to the two ends of the band), eps in {1/16, 1/8, 15/64}; any autosomal
+    # level; direct oracle: the true sex is returned; the theorem's hypotheses are evaluated on every sample
+    combos = [(sex, hap, with_y, with_w) for sex in 'mf' for hap in (True, False) for with_y in (True, False)
+              for with_w in (True, False)]
+    n_bounded = 96 if tier == 'quick' else 600
+    for i in range(n_bounded):
+        sex, hap, with_y, with_w = combos[i % len(combos)] if i < 3 * len(combos) else (
+            rng.choice('mf'), rng.random() < 0.5, rng.random() < 0.6, rng.random() < 0.5)
+        eps = [F(1, 16), F(1, 8), F(15, 64)][(i // len(combos)) % 3]
+        k = int(eps * GRID)
+        ends = rng.random() < 1 / 6
+        def noise(k=k, ends=ends):
+            if ends:
+                return F(rng.choice([-k, -k, k, k, rng.randint(-k, k)]), GRID)
+            return F(rng.randint(-k, k), GRID)
+        level = rng.choice([F(0), F(0), grid(rng, -0.5, 0.5), F(rng.randint(-3, 3))])
+        nx = rng.choice([40, 40, 41, 50, rng.randint(40, 120), rng.randint(40, 400)])
+        style = rng.choice(['chr', 'plain'])
+        rows = gen_sexed_sample(rng, sex, hap, with_y, with_w, None, nx, style, tier, noise=noise, level=level,
+                                ylevels=[F(-20), F(-10), F(-6), F(-4), F(-3)])
+        info = {'sex': sex, 'hap': hap, 'with_y': with_y, 'weights': with_w, 'eps': str(eps), 'nx': nx,
+                'level': float(level), 'ends': ends}
+        nbuild = None
+        if i % 3 == 2:
+            nbuild = rng.choice(['grch37', 'grch38', 'GRCh38'])
+            rows = with_par_bins(rng, rows, nbuild, style, None, noise=noise, level=level)
+            info['build'] = nbuild
+        batch.add(rows, True, with_w, hap, nbuild, 'sex:bounded:%s:%s:%s%s%s%s' % (eps, sex, 'malref' if hap else 'femref',
+                  ':Y' if with_y else '', ':w' if with_w else '', ':par' if nbuild else ''), truth=sex, info=info,
+                  noise={'eps': eps, 'a': level, 'stream': 'bounded eps=%s' % eps, 'bounded': True})
+        if i % 6 == 0:
+            code = batch.items[-1][-1] if batch.items else None
+            if isinstance(code, dict) and code.get('guess_xx') is not None:
+                case = {'kind': 'shift_xx', 'rows': case_rows(rows), 'has_weight': with_w, 'hap': hap, 'is_xx': None, 'build': nbuild}
+                add_shift(rows, True, with_w, hap, None, nbuild, case, guess=code['guess_xx'])
+                # C15_shift_xx_bounded_noise_guessed: chrX (outside PAR-X) ends within eps of the autosomal level
+                if code['guess_xx'] is (sex == 'f'):
+                    auto, chrx, _ = sex_parts(rows, nbuild)
+                    keys = {(r[0], r[1]) for r in chrx}
+                    far = [c for c, r in zip(shift_codes[-1], rows) if (r[0], r[1]) in keys and abs(F(c) - level) > eps]
+                    if far:
+                        ck.violation('shift_xx leaves chrX bins of a bounded-noise sample further than eps from the autosomal level',
+                                     case, code=far[:5], expected='within %s of %s' % (eps, level), clause='C15_shift_xx_bounded_noise')
+        if len(batch.items) >= 200:
+            batch.flush()
+    # the three witnesses of Props/C15.v on the real code: the contract met on the route with statistics (male);
+    # the adversarial sample within 1/16 (scipy outside the contract, called female although male); the sharpness
+    # sample at eps = 1/4 (called female although male).  Correspondence cases: no direct oracle on the sex.
+    def wit(auto, xs):
+        return [('chr1', 0, 100, 'g', F(v), F(10), F(1)) for v in auto] + [('chrX', 0, 100, 'g', F(v), F(10), F(1)) for v in xs]
+    for name, rows, eps, expect in (
+            ('witness:contract_satisfiable', wit([F(-1, 8), F(-1, 16), 0, F(1, 32), F(1, 16), F(1, 8)],
+                                                 [F(-9, 8), F(-33, 32), F(-31, 32), F(-29, 32)]), F(1, 8),
+             {'is_xy': True, 'contract_met': True, 'bins_within_eps': True}),
+            ('witness:contract_needed', wit([F(3, 64), F(4, 64), F(2, 64), F(1, 64)],
+                                            [F(-65, 64), F(-66, 64), F(-67, 64), F(-68, 64), F(-129, 128), F(-131, 128)]), F(1, 16),
+             {'is_xy': False, 'contract_met': False, 'bins_within_eps': True}),
+            ('witness:quarter_is_sharp', wit([F(-1, 4)] * 3, [F(-3, 4)] * 40), F(1, 4),
+             {'is_xy': False, 'contract_met': True, 'bins_within_eps': True})):
+        batch.add(rows, False, False, False, None, 'sex:' + name, truth=None, info={'witness': name},
+                  noise={'eps': eps, 'a': F(0), 'stream': name, 'bounded': True, 'female': False, 'expect': expect})
     # correspondence-only: small / odd tables, PAR builds, no X, no numeric names, ties, zero weights
     for i in range(150 if tier == 'quick' else 3000):
         build = rng.choice([None, None, 'grch37', 'grch38', 'GRCh38'])
@@ -1170,7 +1419,7 @@ def run_case(ck, c, cbatch, sbatch):
     elif kind == 'sex':
         rows = rows_of_case(c['rows'])
         sbatch.add(rows, c.get('has_depth', False), c.get('has_weight', False), c['hap'], c.get('build'), 'corpus:sex',
-                   truth=c.get('truth'), info=c.get('info'))
+                   truth=c.get('truth'), info=c.get('info'), noise=c.get('noise'))
     elif kind == 'shift_xx':
         rows = rows_of_case(c['rows'])
         hd, hw = c.get('has_depth', True), c.get('has_weight', False)
@@ -1238,7 +1487,15 @@ def run(ck, scratch):
                'lists (move with the data; code vs model). sex: noise-free and noisy (sd 0.01..0.3, '
                '40..400 X bins) samples of sex x reference x Y x weights, plus small odd tables (ties, PAR builds, no X) compared '
                'with the model fed scipy G statistics; every third noisy sample and every noise-free one also under a PAR build (PAR-X bins at '
-               'the autosomal level, PAR-Y bins without reads); shift_xx and expect_flat_log2 on the same tables; do_sex on 1..4 tables at once '
+               'the autosomal level, PAR-Y bins without reads); a bounded-noise stream (every bin within eps of its level, uniform on '
+               'the 1/1024 grid in [-eps, eps] or pushed to the ends of the band, eps in {1/16, 1/8, 15/64}, 40..400 X bins, any '
+               'autosomal level, sex x reference x Y x weights, every third under a PAR build) with the direct oracle "the true sex is '
+               'returned, shift_xx brings chrX within eps of the autosomal level"; on every bounded AND every Gaussian sample the '
+               "hypotheses of C15_sex_bounded_noise / C15_sex_centred_noise are evaluated (model: c15_noise_check fed scipy's G per table; "
+               'independently: scipy.stats.median_test called as compare_to_auto calls it) -- a sample under the theorem that is called '
+               'wrongly would be a violation, a disagreement about the contract a tie-break; the three witnesses of Props/C15.v '
+               '(contract satisfiable / needed / 1/4 sharp) are replayed on the code; '
+               'shift_xx and expect_flat_log2 on the same tables; do_sex on 1..4 tables at once '
                '(whole DataFrame: columns, row order, names, labels, printed ratios). '
                'non-trivial = a bin is selected and the estimator of the result is checked to be 0 (centring), X bins present (sex, flat); '
                'distinct by case hash')
